@@ -1,6 +1,7 @@
 package main
 
 import (
+	"go/constant"
 	"go/types"
 	"sort"
 	"strings"
@@ -169,29 +170,64 @@ func mustPrecede(to ssa.Instruction, pred func(ssa.Instruction) bool) bool {
 			}
 		}
 	}
-	// backward reachability from b's predecessors avoiding barriers; reaching the entry block = a path without pred
-	seen := map[*ssa.BasicBlock]bool{}
-	var work []*ssa.BasicBlock
-	for _, p := range b.Preds {
-		if !barrier[p] && !seen[p] {
-			seen[p] = true
-			work = append(work, p)
+	// backward reachability from b's predecessors avoiding barriers; reaching the entry block = a path without pred.
+	// Infeasible two-step paths are pruned: if block X branches on a phi of its own whose value along the edge P->X is a
+	// boolean constant, then P->X->S is only feasible for the successor S that the constant selects
+	// (short-circuit conditions such as `a == nil || !f(a)` compile to exactly this shape).
+	type st struct{ blk, via *ssa.BasicBlock } // via = successor through which blk was left (nil for the start)
+	seen := map[st]bool{}
+	var work []st
+	feasible := func(p, x, s *ssa.BasicBlock) bool {
+		if s == nil || len(x.Instrs) == 0 {
+			return true
 		}
+		ifi, ok := x.Instrs[len(x.Instrs)-1].(*ssa.If)
+		if !ok {
+			return true
+		}
+		phi, ok := ifi.Cond.(*ssa.Phi)
+		if !ok || phi.Block() != x {
+			return true
+		}
+		for i, pp := range x.Preds {
+			if pp != p {
+				continue
+			}
+			k, ok := phi.Edges[i].(*ssa.Const)
+			if !ok || k.Value == nil || k.Value.Kind() != constant.Bool {
+				return true
+			}
+			taken := x.Succs[1]
+			if constant.BoolVal(k.Value) {
+				taken = x.Succs[0]
+			}
+			return taken == s
+		}
+		return true
 	}
 	if b == fn.Blocks[0] {
 		return false
 	}
+	for _, p := range b.Preds {
+		if !barrier[p] {
+			work = append(work, st{p, b})
+		}
+	}
 	for len(work) > 0 {
 		x := work[len(work)-1]
 		work = work[:len(work)-1]
-		if x == fn.Blocks[0] {
+		if seen[x] {
+			continue
+		}
+		seen[x] = true
+		if x.blk == fn.Blocks[0] {
 			return false
 		}
-		for _, p := range x.Preds {
-			if !barrier[p] && !seen[p] {
-				seen[p] = true
-				work = append(work, p)
+		for _, p := range x.blk.Preds {
+			if barrier[p] || !feasible(p, x.blk, x.via) {
+				continue
 			}
+			work = append(work, st{p, x.blk})
 		}
 	}
 	return true
